@@ -1374,6 +1374,11 @@ def main():
     except Undecided as e:
         print(f"UNDECIDED property={a[0]} reason={e}")
         return 2
+    except Exception as e:   # a defect of the driver itself is never a verdict about /repo: undecided, with the trace on stderr
+        import traceback
+        traceback.print_exc()
+        print(f"UNDECIDED property={a[0]} reason=internal error of the checking machinery: {type(e).__name__}: {str(e)[:300]}")
+        return 2
 
 
 if __name__ == "__main__":
